@@ -41,7 +41,8 @@ SUBMODULES = ["nsf", "xsf", "covalent_radius", "crystal_structure", "magnetic_ff
 
 
 class Sentinel:
-    """a user-assigned value"""
+    """a user-assigned value (opaque and immutable)"""
+    __slots__ = ("n",)
 
     def __init__(self, n):
         self.n = n
@@ -106,6 +107,22 @@ class Child:
             x = x.ion[q]
         return x
 
+    def source(self, T, key, attr):
+        """where the value served for (atom, attr) lives *now* (no loading is triggered):
+           "instance" | "class" (plain class attribute) | "property" | "none" """
+        x = self.atom(T, key)
+        while True:
+            c = type(x).__dict__.get(attr)
+            if isinstance(c, property):
+                return "property"
+            if attr in x.__dict__:
+                return "instance"
+            if c is not None or attr in type(x).__dict__:
+                return "class"
+            if isinstance(x, self.core.Element):
+                return "none"
+            x = x.element
+
     def outcome(self, fn):
         try:
             return fn()
@@ -150,15 +167,21 @@ class Child:
         if k == "mutate":
             def mut():
                 v = getattr(self.atom(ev[1], ev[2]), ev[3])
+                src = self.source(ev[1], ev[2], ev[3])     # after the read: nothing of the group is pending
+                # the marks an object carries are a set (kept sorted): marking twice is idempotent
                 if isinstance(v, dict):
-                    v["ptv-mut"] = ev[4]
+                    v["ptv-mut"] = tuple(sorted(set(v.get("ptv-mut", ())) | {ev[4]}))
                 elif isinstance(v, list):
-                    v.append(Sentinel(ev[4]))
+                    old = [x for x in v if isinstance(x, tuple) and x[:1] == ("ptv-mut",)]
+                    marks = set(old[0][1:]) if old else set()
+                    for x in old:
+                        v.remove(x)
+                    v.append(("ptv-mut",) + tuple(sorted(marks | {ev[4]})))
                 elif hasattr(v, "__dict__"):
-                    v.ptv_mut = ev[4]
+                    v.ptv_mut = tuple(sorted(set(getattr(v, "ptv_mut", ())) | {ev[4]}))
                 else:
                     return ["exc", "Immutable"]
-                return ["ok"]
+                return ["ok", src]
             return self.outcome(mut)
         if k == "digest":
             out = []
@@ -188,16 +211,22 @@ class Child:
                 x = x.element
             return ["keys", out]
         if k == "source":
-            # where the value served for (atom, attr) lives: "instance" | "class" | "none"
-            x = self.atom(ev[1], ev[2])
-            while True:
-                if ev[3] in x.__dict__:
-                    return ["src", "instance"]
-                if ev[3] in type(x).__dict__:
-                    return ["src", "class"]
-                if isinstance(x, self.core.Element):
-                    return ["src", "none"]
-                x = x.element
+            return ["src", self.source(ev[1], ev[2], ev[3])]
+        if k == "formula":
+            def frm():
+                from periodictable import formulas
+                f = formulas.formula(ev[2], table=self.tables[ev[1]])
+                t = self.tables[ev[1]]
+                ok = all(self.core.change_table(a, t) is a for a in f.atoms)
+                return ["bool", ok]
+            return self.outcome(frm)
+        if k == "pickle":
+            def pk():
+                import pickle
+                x = self.atom(ev[1], ev[2])
+                y = pickle.loads(pickle.dumps(x))
+                return ["bool", y is x and self.core.change_table(y, self.tables[ev[1]]) is y]
+            return self.outcome(pk)
         if k == "ids":
             # id() sets of the mutable per-atom objects of a table (C10 objects_disjoint)
             out = []
@@ -207,7 +236,9 @@ class Child:
                         v = getattr(self.atom(ev[1], key), attr)
                     except Exception:  # noqa
                         continue
-                    if isinstance(v, (dict, list)) or (hasattr(v, "__dict__") and not isinstance(v, type)):
+                    if self.source(ev[1], key, attr) not in ("instance", "property"):
+                        continue
+                    if isinstance(v, (dict, list)) or (hasattr(v, "__dict__") and not isinstance(v, (type, Sentinel))):
                         out.append([list(key), attr, id(v)])
             return ["ids", out]
         return ["exc", "UnknownEvent"]
